@@ -239,6 +239,11 @@ func runC06(c *core.Ctx) {
 					}
 					sh["leases"] = 16
 				}
+				if i%32 == 7 {
+					// a key of a type the library does not know, as long as the two-byte key length allows
+					m.Keys = append(m.Keys, rm.EncKey{Type: []uint16{255, 65280, 65535}[r.Pick(3)], Data: r.Bytes(65535 - r.Pick(5))})
+					sh["long_unknown_key"] = true
+				}
 				if i%16 == 11 {
 					for len(m.Keys) < 16 {
 						m.Keys = append(m.Keys, rm.EncKey{Type: 4, Data: r.Bytes(32)})
